@@ -6,6 +6,7 @@ INVARIANT RefSource
 INVARIANT RefHistory
 INVARIANT CacheSound
 INVARIANT BfsIsNearest
+INVARIANT NameRefines
 CONSTANTS
   Shape = "chain5"
   Modes = {"both"}
